@@ -55,6 +55,7 @@ type vfakeMetadata struct {
 	writeMask func(vbID uint16) bool
 	onSave    func()
 	loadErr   error
+	wholeState bool // like the file backend: every save replaces the whole stored state with the state handed in
 	loadSkip  func(vbID uint16) bool // Load leaves these vBuckets out of its result (e.g. a file written for a narrower assignment)
 }
 
@@ -69,6 +70,13 @@ func (f *vfakeMetadata) Save(state map[uint16]*models.CheckpointDocument, dirty 
 	}
 	if f.failNext != nil && f.failNext() {
 		return vStoreErr{}
+	}
+	if f.wholeState {
+		f.store = map[uint16]*models.CheckpointDocument{}
+		for vbID, doc := range state {
+			f.store[vbID] = doc
+		}
+		return nil
 	}
 	for vbID, doc := range state {
 		if dirty[vbID] && (f.writeMask == nil || f.writeMask(vbID)) {
